@@ -402,11 +402,23 @@ type OpResult struct {
 	Panic string
 	Log   *ledger.Log
 	Tx    *ledger.Transaction
+	HTTP  bool   // answer of the HTTP API (httpop.go): no log id, Class is "<status>:<errorCode>"
+	Body  []byte // HTTP: body of a 2xx answer
 }
 
 func (r OpResult) sx() string {
 	if r.Panic != "" {
 		return L("panic")
+	}
+	if r.HTTP {
+		if r.Class != "none" {
+			return L("err", Q(r.Class))
+		}
+		tx := "nil"
+		if r.TxID != nil {
+			tx = fmt.Sprint(*r.TxID)
+		}
+		return L("ok", tx, b01(r.Hit))
 	}
 	if r.Class != "none" {
 		c := r.Class
@@ -671,7 +683,13 @@ func (st *Stack) Snapshot(ctx context.Context, ctrl ledgercontroller.Controller,
 	for c, v := range agg {
 		s.Agg[c] = v.String()
 	}
-	// raw tables (moves, metadata histories)
+	st.rawTables(name, &s)
+	return s
+}
+
+// rawTables: the rows of moves and of the two metadata histories (no API exposes them)
+func (st *Stack) rawTables(name string, sp *Snap) {
+	s := sp
 	sess := st.PG.NewSession()
 	defer sess.Close()
 	q := func(sql string) [][]string {
@@ -706,7 +724,6 @@ func (st *Stack) Snapshot(ctx context.Context, ctrl ledgercontroller.Controller,
 	for _, r := range q(`select transactions_id, revision, date, metadata from transactions_metadata where ledger = '` + esc + `' order by transactions_id, revision`) {
 		s.THist = append(s.THist, SnapHist{Key: r[0], Rev: atoi(r[1]), Date: tsText(r[2]), Meta: jsonKV(r[3])})
 	}
-	return s
 }
 
 func (s Snap) sx() string {
